@@ -382,7 +382,10 @@ def run(rep, tier, rng):
             if out[0] != "reject":
                 cls = "2xx-unsupported" if 200 <= v < 300 else "not-1xx-or-2xx"
                 fail("make_header:%s:%s" % (cls, "accepted" if out[0] == "ok" else "wrong-exception"), "make_header(%r) -> %r" % (vv, out[:1] if out[0] == "ok" else out), case)
-    for vv in ["abc", "", "1O2", "10.2", "1e2", "0x66", "one", "v1", "--102", "1 02", "١٠٢x"]:
+    # texts int() cannot read, incl. those str.isdigit() / str.isnumeric() accept (category No / Nl digits: superscript, circled, Ethiopic,
+    # Kharoshthi, Roman numeral, vulgar fraction) and a digit string past CPython's 4300-digit int conversion limit
+    isdigit_not_int = ["10²", "²00", "①02", "፩02", "\U00010a40" + "02", "1\u2082" + "2", "Ⅷ", "½", "1" * 4301, "102" + "0" * 4300]
+    for vv in ["abc", "", "1O2", "10.2", "1e2", "0x66", "one", "v1", "--102", "1 02", "١٠٢x", "1__02", "_102", "102_", "1 0 2", "\x00102"] + isdigit_not_int:
         case = ("make", vv, None, None, None)
         cases.append(case)
         out = call(H, H.make_header, vv)
@@ -398,7 +401,7 @@ def run(rep, tier, rng):
                 fail("make_header:invalid-%s:%s" % (label, "accepted" if out[0] == "ok" else "wrong-exception"), "make_header%r -> %r" % (case[1:], out[:1] if out[0] == "ok" else out), case)
 
     # ---------- C'. the constructors themselves refuse invalid arguments with the header error (exception CLASS checked) ----------
-    non_numeric = ["1O2", "abc", "10.2", "1e2", "0x66", "v102", "--1", "1 02", "one", "١٠٢x", "1__0", "_1"]
+    non_numeric = ["1O2", "abc", "10.2", "1e2", "0x66", "v102", "--1", "1 02", "one", "١٠٢x", "1__0", "_1", "10²", "①02", "፩02", "Ⅷ", "1" * 4301]
     for t in non_numeric:
         for case, label in ((("ctor1", t, None, None, None, None, None, None, None, None), "v1:non-numeric-version"),
                             (("ctor1", 102, t, None, None, None, None, None, None, None), "v1:non-numeric-ofxheader"),
